@@ -160,10 +160,8 @@ impl Repl {
 
         if self.depth < 0 {
             let loc = self.loc.clone();
-            let result = parse_sexp(loc, input_taken.bytes())
-                .map(|_v| {
-                    panic!("too many parens but parsed anyway");
-                })
+            let result = parse_sexp(loc.clone(), input_taken.bytes())
+                .and_then(|_v| Err((loc, "Too many close parens".to_string())))
                 .err_into();
             self.input_exp = "".to_string();
             self.depth = 0;
